@@ -1,13 +1,18 @@
 //! C07 / C09: drives the REAL `hyperdriver::server::Server` (plain and `with_graceful_shutdown`)
 //! with scripted clients and prints the observable event log.
 //!
-//! case line: <mode g|p> <proto h1|h2|auto> <transport duplex|dtls|tcp|unix> <ev> <ev> ...
+//! case line: <mode g|p> <proto h1|h2|auto> <transport duplex|dtls|tcp|unix>[@<cap>] <ev> <ev> ...
+//!   @<cap>: DuplexIncoming::with_max_buf_size(cap) (duplex / dtls); a connect token may carry `:<n>`, the
+//!   buffer size that client asks for (default 65536; `C0:0` = a raw client asking for a zero-capacity stream).
+//!   Both are variation the model abstracts from: the observable behaviour must not depend on them.
 //!   C0 raw silent client | C1 hyper h1 client | C2 hyper h2 client | C3 hyper h2 client whose
 //!   writes are cut after 10 bytes (partial preface)      -- queue a connect (no settle)
 //!   X  queue a connect, then go away before the server polls (cancelled connect)
 //!   U  (unix) connect from a socket bound to a non-UTF-8 path; behaves like C1
 //!   L  lose the listener (drop every client handle; duplex only)   M  arm a make-service failure
 //!   G  fire the shutdown signal (mode g)                  S  settle (run everything to quiescence)
+//!   K<n> (mode g) arm: the make-service future resolves the shutdown signal while it admits the (n+1)-th
+//!        connection from now, i.e. INSIDE the accept loop (logged as G at that moment)
 //!   P<c> begin a request, head cut after 10 bytes (h1)    R<c> begin a request / complete the cut head
 //!   T<c> advance the oldest unfinished request of c by one stage:
 //!        body rest -> handler released (response head + first chunk) -> response finished
@@ -17,7 +22,7 @@
 //!   echo of the environment: C<c> X L M G B<c> (request begun) J<c> (environment did its last step) F<c>
 //!   reactions: A<k> accept returned conn k | E accept error | Sp<k> driver spawned | T<k> graceful_shutdown
 //!   called | D<k> driver finished | H<k> handler invoked | V<c> complete response received | W<c> request
-//!   failed | K<c> client saw the close | N<c> connect refused | Z+ / Z- server future Ok / Err | Q quiescent
+//!   failed | K<c> client saw the close | N<c> connect refused | Z+ / Z- server future Ok / Err | Z! server future panicked | Q quiescent
 //!   (K and W are for the reader; the Coq side does not use them)
 //!
 //! How it runs: one current-thread tokio runtime per case; the server future is one task, every
@@ -408,12 +413,12 @@ impl World {
         }
     }
 
-    fn connect(&mut self, kind: u8, cancel: bool, odd_path: bool) {
+    fn connect(&mut self, kind: u8, cancel: bool, odd_path: bool, buf: usize) {
         let c = self.clients.len();
         let fut: Pin<Box<dyn Future<Output = std::io::Result<BoxIo>> + Send>> = match &self.dial {
             Dial::Duplex(Some(cl)) => {
                 let cl = cl.clone();
-                Box::pin(async move { cl.connect(1 << 16).await.map(|s| Box::new(s) as BoxIo) })
+                Box::pin(async move { cl.connect(buf).await.map(|s| Box::new(s) as BoxIo) })
             }
             Dial::Duplex(None) => Box::pin(async { Err(std::io::ErrorKind::ConnectionReset.into()) }),
             Dial::Tcp(addr) => {
@@ -522,9 +527,12 @@ impl World {
     async fn event(&mut self, tok: &str) {
         let num = |s: &str| s.parse::<usize>().unwrap_or(usize::MAX);
         match tok {
-            "C0" | "C1" | "C2" | "C3" => self.connect(tok.as_bytes()[1] - b'0', false, false),
-            "U" => self.connect(1, false, true),
-            "X" => self.connect(1, true, false),
+            _ if tok.len() >= 2 && tok.starts_with('C') && matches!(tok.as_bytes()[1], b'0'..=b'3') && (tok.len() == 2 || tok.as_bytes()[2] == b':') => {
+                let buf = if tok.len() > 3 { tok[3..].parse::<usize>().unwrap_or(1 << 16) } else { 1 << 16 };
+                self.connect(tok.as_bytes()[1] - b'0', false, false, buf)
+            }
+            "U" => self.connect(1, false, true, 1 << 16),
+            "X" => self.connect(1, true, false, 1 << 16),
             "L" => {
                 if let Dial::Duplex(cl) = &mut self.dial {
                     if cl.take().is_some() {
@@ -669,7 +677,11 @@ async fn run_case(line: String) -> String {
     if f.len() < 3 {
         return "BADCASE".into();
     }
-    let (graceful, proto, transport) = (f[0] == "g", f[1], f[2]);
+    let (graceful, proto) = (f[0] == "g", f[1]);
+    let (transport, cap) = match f[2].split_once('@') {
+        Some((t, c)) => (t, c.parse::<usize>().ok()),
+        None => (f[2], None),
+    };
     let log = Log::default();
     let gates: Gates = Default::default();
     let armed = Arc::new(AtomicBool::new(false));
@@ -691,6 +703,10 @@ async fn run_case(line: String) -> String {
         }
         _ => {
             let (client, incoming) = hyperdriver::stream::duplex::pair();
+            let incoming = match cap {
+                Some(n) => incoming.with_max_buf_size(n),
+                None => incoming,
+            };
             (Dial::Duplex(Some(client)), Acceptor::from(incoming))
         }
     };
@@ -698,15 +714,43 @@ async fn run_case(line: String) -> String {
     let acceptor = if tls { acceptor.with_tls(tls_server_config()) } else { acceptor };
     let acceptor = LogAccept { inner: acceptor, log: log.clone(), n: 0 };
 
+    let (sig_tx, sig_rx) = oneshot::channel::<()>();
+    let sig_tx = Arc::new(Mutex::new(Some(sig_tx)));
+    // Some(n): the make-service resolves the signal after admitting n more connections
+    let sigarm: Arc<Mutex<Option<usize>>> = Default::default();
     let (mk_n, mk_gates, mk_armed, mk_log) = (Arc::new(AtomicUsize::new(0)), gates.clone(), armed.clone(), log.clone());
+    let (mk_sig, mk_arm) = (sig_tx.clone(), sigarm.clone());
     let make = make_service_fn(move |_: &<Acceptor as Accept>::Conn| {
         let k = mk_n.fetch_add(1, Ordering::SeqCst);
         let fail = mk_armed.swap(false, Ordering::SeqCst);
         let gates = mk_gates.clone();
         let hlog = mk_log.clone();
+        let (sig, arm) = (mk_sig.clone(), mk_arm.clone());
         async move {
             if fail {
                 return Err::<_, std::io::Error>(std::io::Error::new(std::io::ErrorKind::Other, "scripted make-service failure"));
+            }
+            // State::Making: this future is polled by poll_once; resolving the signal here resolves it
+            // inside the accept loop, before the connection is spawned
+            let fire = {
+                let mut a = arm.lock().unwrap();
+                match *a {
+                    Some(0) => {
+                        *a = None;
+                        true
+                    }
+                    Some(n) => {
+                        *a = Some(n - 1);
+                        false
+                    }
+                    None => false,
+                }
+            };
+            if fire {
+                if let Some(tx) = sig.lock().unwrap().take() {
+                    hlog.put("G".into());
+                    let _ = tx.send(());
+                }
             }
             let r = Arc::new(AtomicUsize::new(0));
             Ok(tower::service_fn(move |req: http::Request<hyperdriver::Body>| {
@@ -715,8 +759,6 @@ async fn run_case(line: String) -> String {
         }
     });
     let exec = LogExec { log: log.clone(), n: Arc::new(AtomicUsize::new(0)) };
-    let (sig_tx, sig_rx) = oneshot::channel::<()>();
-    let mut sig_tx = Some(sig_tx);
     let slog = log.clone();
     let stop = Arc::new(AtomicBool::new(false));
     let stop2 = stop.clone();
@@ -732,16 +774,24 @@ async fn run_case(line: String) -> String {
                     let _ = sig_rx.await;
                 });
                 tokio::spawn(async move {
-                    let r = fut.await;
+                    let r = futures_util::FutureExt::catch_unwind(std::panic::AssertUnwindSafe(fut)).await;
                     stop2.store(true, Ordering::SeqCst);
-                    slog.put(if r.is_ok() { "Z+".into() } else { "Z-".into() });
+                    slog.put(match r {
+                        Ok(Ok(())) => "Z+".into(),
+                        Ok(Err(_)) => "Z-".into(),
+                        Err(_) => "Z!".into(),
+                    });
                 })
             } else {
                 drop(sig_rx);
                 let fut = std::future::IntoFuture::into_future(server);
                 tokio::spawn(async move {
-                    let r = fut.await;
-                    slog.put(if r.is_ok() { "Z+".into() } else { "Z-".into() });
+                    let r = futures_util::FutureExt::catch_unwind(std::panic::AssertUnwindSafe(fut)).await;
+                    slog.put(match r {
+                        Ok(Ok(())) => "Z+".into(),
+                        Ok(Err(_)) => "Z-".into(),
+                        Err(_) => "Z!".into(),
+                    });
                 })
             }
         }};
@@ -757,10 +807,15 @@ async fn run_case(line: String) -> String {
         match *tok {
             "G" => {
                 if graceful {
-                    if let Some(tx) = sig_tx.take() {
+                    if let Some(tx) = sig_tx.lock().unwrap().take() {
                         log.put("G".into());
                         let _ = tx.send(());
                     }
+                }
+            }
+            t if t.starts_with('K') => {
+                if graceful {
+                    *sigarm.lock().unwrap() = Some(t[1..].parse::<usize>().unwrap_or(0));
                 }
             }
             "M" => {
